@@ -506,6 +506,16 @@ func typeText(t aType) string {
 	return s
 }
 
+// tagFirst decides, from the parameter's name alone (so that it is stable over re-renderings), whether other patterns
+// are written in front of the parameter's location tag
+func tagFirst(name string) bool {
+	h := 0
+	for i := 0; i < len(name); i++ {
+		h += int(name[i])
+	}
+	return h%3 == 0
+}
+
 func renderApp(b *strings.Builder, a aApp) {
 	if a.Long != "" {
 		fmt.Fprintf(b, "%s %q:\n", a.Name, a.Long)
@@ -551,6 +561,9 @@ func renderApp(b *strings.Builder, a aApp) {
 				query = append(query, p.Name+"="+tt)
 			case "header":
 				attrs := "~header"
+				if tagFirst(p.Name) {
+					attrs = "~audit, ~header" // the location tag is not always the first pattern
+				}
 				if a.Style == "imported" {
 					attrs = fmt.Sprintf("~header, name=%q", p.Name)
 					if !p.T.Opt {
@@ -560,6 +573,9 @@ func renderApp(b *strings.Builder, a aApp) {
 				others = append(others, fmt.Sprintf("%s <: %s [%s]", p.Name, typeText(p.T), attrs))
 			case "body":
 				attrs := "~body"
+				if tagFirst(p.Name) {
+					attrs = "~audit, ~traced, ~body" // the location tag is not always the first pattern
+				}
 				if a.Style == "imported" && !p.T.Opt {
 					attrs += ", ~required"
 				}
